@@ -1,6 +1,8 @@
 import RTA.Lemmas.Tight
 import RTA.Lemmas.FpSound
 import RTA.Lemmas.TightFP
+import RTA.Lemmas.TightNP
+import RTA.Lemmas.Realisable
 /-! # C18 — fully preemptive FP, non-preemptive FP and FIFO bounds are attained
 
 Proved here: the FIFO part, at full generality for task sets whose arrival curves are
@@ -10,14 +12,17 @@ job has a response time exactly equal to the bound, and a legal FIFO schedule ex
 every job set.  Sporadic tasks with release jitter (and periodic tasks, `J = 0`) have
 such realising sequences (`criticalInstantAt`).
 
-The fully preemptive fixed-priority part is proved in the same form
-(`fp_preemptive_bound_is_tight`: in EVERY legal fully preemptive FP schedule of a job set that
-realises the curves of the analysed task and of the higher-priority tasks from a common
-instant, with the analysed task's jobs at their WCET, some job of the analysed task has a
-response time exactly equal to the bound; `legal_fp_schedule_exists`).  The fully
-non-preemptive part is stated (`FpNonpreemptiveTight` in DESIGN.md terms) and explored by the
-falsifier (simulation of the critical-instant schedule with a lower-priority job started one
-tick earlier; a bound larger than the witnessed response time is reported as a violation). -/
+The fully preemptive and the fully non-preemptive fixed-priority parts are proved in the same
+form (`fp_preemptive_bound_is_tight`, `fp_nonpreemptive_bound_is_tight`: in EVERY legal
+schedule of a job set that realises the curves of the analysed task and of the
+higher-priority tasks from a common instant, with the analysed task's jobs at their WCET —
+and, for the non-preemptive analysis with a positive blocking bound, a lower-priority job of
+cost `B + 1` started one slot earlier — some job of the analysed task has a response time
+exactly equal to the bound; `legal_fp_schedule_exists`).  Realisability of the three curve
+families named in the statement: periodic / sporadic with jitter (`sporadic_realisable`) and
+auto-extrapolating super-additive delta-min curves (`extrapolating_curve_realisable`: the
+densest event sequence is admissible and has exactly `number_arrivals(Δ)` events in every
+window starting at the critical instant). -/
 
 namespace RTA.C18
 open RTA RTA.Sched RTA.Spec
@@ -73,6 +78,37 @@ theorem fp_preemptive_bound_is_tight (s : Sys) (i : ℕ) (a : Arr) (C : ℕ) (hp
     (hRpos : 0 < R) :
     ∃ j, j < s.n ∧ s.task j = i ∧ MeetsBound s j R ∧ ∀ R', R' < R → ¬ MeetsBound s j R' :=
   fp_preemptive_bound_attained s i a C hp hS hnp hwf hex hC hwfo limit R L t₀ hR hL hown hcost hhp hRpos
+
+/-- C18 for fully non-preemptive FP -/
+theorem fp_nonpreemptive_bound_is_tight (s : Sys) (i : ℕ) (a : Arr) (C B : ℕ) (hp : List (Arr × ℕ))
+    (hS : FpSetting s id i (.rbf a (.scalar C)) (hp.map fun p => RB.rbf p.1 (.scalar p.2)) B)
+    (hnpall : ∀ l, l < s.n → ∀ x, 1 ≤ x → x < s.cost l → s.np l x)
+    (hwf : a.WF) (hex : a.Exact) (hC : 1 ≤ C)
+    (hwfo : ∀ p ∈ hp, p.1.WF ∧ p.1.Exact ∧ 1 ≤ p.2)
+    (limit R L t₀ : ℕ)
+    (hR : fpNonpreemptive a C B (hp.map fun p => RB.rbf p.1 (.scalar p.2)) limit = .ok R)
+    (hL : naiveSolve (fun x => B + sumNeed (hp.map fun p => RB.rbf p.1 (.scalar p.2)) x +
+        (RB.rbf a (.scalar C)).need x) limit = .ok L)
+    (hcnt : ∀ t d, cntOf s (fun x => x = i) t (t + d) ≤ a.N d)
+    (hown : ∀ Δ, Δ ≤ L → cntOf s (fun x => x = i) t₀ (t₀ + Δ) = a.N Δ)
+    (hcost : ∀ k, k < s.n → s.task k = i → s.cost k = C)
+    (hhp : ∀ Δ, Δ ≤ L → workOf s (fun x => x < i) t₀ (t₀ + Δ) =
+        sumNeed (hp.map fun p => RB.rbf p.1 (.scalar p.2)) Δ)
+    (hblock : B = 0 ∨ ∃ b, b < s.n ∧ i < s.task b ∧ s.cost b = B + 1 ∧ 1 ≤ t₀ ∧
+        s.sched (t₀ - 1) = some b ∧ svc s b (t₀ - 1) = 0)
+    (hRpos : 0 < R) :
+    ∃ j, j < s.n ∧ s.task j = i ∧ MeetsBound s j R ∧ ∀ R', R' < R → ¬ MeetsBound s j R' :=
+  fp_nonpreemptive_bound_attained s i a C B hp hS hnpall hwf hex hC hwfo limit R L t₀ hR hL hcnt hown hcost
+    hhp hblock hRpos
+
+/-- auto-extrapolating super-additive delta-min curves are realisable: the densest event
+sequence from `t₀` is admissible for the curve and realises it up to every horizon that the
+extrapolated entries cover (and enough entries exist for every horizon) -/
+theorem extrapolating_curve_realisable (d : List ℕ) (hwf : curveWF d) (h2 : 2 ≤ d.length)
+    (hsa : SuperAdditive d) (t₀ H : ℕ) :
+    ∃ n, Admissible (.xcurve d) (densest d n t₀) ∧ RealisesFrom (.xcurve d) (densest d n t₀) t₀ H := by
+  obtain ⟨n, hn⟩ := densest_covers d hwf h2 H
+  exact ⟨n, densest_admissible d hwf h2 hsa n t₀, densest_realises d hwf h2 hsa n t₀ H hn⟩
 
 /-- every job set has a legal fully preemptive fixed-priority schedule -/
 theorem legal_fp_schedule_exists (js : JobSet) (hpos : ∀ k, k < js.n → 1 ≤ js.cost k) :
